@@ -14,6 +14,7 @@
 #include "momo/HashMap.h"
 #include "momo/details/HashBucketOne.h"
 #include "momo/details/HashBucketLimP.h"
+#include "momo/details/HashBucketOpenN1.h"
 #include "kit.h"
 using namespace momo;
 typedef unsigned long long ull;
@@ -393,11 +394,69 @@ template<typename HB> static bool run_kind_inline(const std::string& keycat, int
 	return false;
 }
 
+// bucket level (ported from props/C13/harness.cpp): AddCrt / Remove / UpdateMaxProbe / Clear on ONE real bucket, all bookkeeping bytes
+namespace bops {
+typedef HashSetItemTraits<uint64_t, MemManagerDefault> IT;
+typedef internal::BucketOpen2N2<IT, 3, true> O2; typedef internal::BucketOpen8<IT> O8;
+template<size_t M> using N1 = internal::BucketOpenN1<IT, M, true>;
+template<class Bk> struct Raw { alignas(Bk) unsigned char buf[sizeof(Bk)]; Bk* b; Raw() { std::memset(buf, 0, sizeof(buf)); b = new (buf) Bk(); } };   // zeroed (bytes of empty slots are never initialised by momo), never destroyed (dtor asserts count == 0)
+struct BOp { char k; ull a, b, c; };
+template<class Bk> static typename Bk::Iterator nthIter(Bk& b, typename Bk::Params& pa, size_t j)
+{ auto bounds = b.GetBounds(pa); auto it = bounds.GetBegin(); for (size_t t = 0; t < j; ++t) ++it; return it; }
+template<class Bk, size_t M> static bool apply(Raw<Bk>& r, typename Bk::Params& pa, const std::vector<BOp>& ops)
+{
+	for (auto& o : ops)
+	{
+		size_t cnt = r.b->pvGetCount();
+		if (o.k == 'A') { if (cnt >= M) return false; ull v = o.a; r.b->AddCrt(pa, [v] (uint64_t* p) { *p = v; }, size_t(o.a), size_t(o.b), size_t(o.c)); }
+		else if (o.k == 'R') { if (o.a >= cnt) return false; r.b->Remove(pa, nthIter(*r.b, pa, size_t(o.a)), [] (uint64_t& src, uint64_t& dst) { dst = src; }); }
+		else if (o.k == 'U') r.b->UpdateMaxProbe(size_t(o.a));
+		else r.b->Clear(pa);
+	}
+	return true;
+}
+static void run(std::istringstream& is)
+{
+	std::string kind, tok; ull m, L; is >> kind >> m >> L; std::vector<BOp> ops;
+	while (is >> tok)
+	{
+		BOp o{ tok[0], 0, 0, 0 }; std::vector<ull> v; size_t pos = 1;
+		while (pos < tok.size()) { size_t e = tok.find(':', pos + 1); if (e == std::string::npos) e = tok.size(); v.push_back(std::stoull(tok.substr(pos + 1, e - pos - 1))); pos = e; }
+		if (v.size() > 0) o.a = v[0]; if (v.size() > 1) o.b = v[1]; if (v.size() > 2) o.c = v[2];
+		ops.push_back(o);
+	}
+	MemManagerDefault mm;
+	if (kind == "o2")
+	{
+		Raw<O2> r; O2::Params pa(mm);
+		std::memset(r.b->mHashData.hashProbes, 0, 3);   // momo leaves the probe bytes of empty slots unspecified; the model starts them at 0
+		if (!apply<O2, 3>(r, pa, ops)) { puts("stuck"); return; }
+		printf("%u %u %u %u %u %u %u %u %llu %d\n", unsigned(r.b->mState[0]), unsigned(r.b->mState[1]),
+			unsigned(r.b->mHashData.shortHashes[0]), unsigned(r.b->mHashData.shortHashes[1]), unsigned(r.b->mHashData.shortHashes[2]),
+			unsigned(r.b->mHashData.hashProbes[0]), unsigned(r.b->mHashData.hashProbes[1]), unsigned(r.b->mHashData.hashProbes[2]),
+			ull(r.b->pvGetCount()), r.b->IsFull() ? 1 : 0);
+	}
+	else if (kind == "n1f")
+	{	// BucketOpen8 = BucketOpenN1<.., 7, reverse = false>
+		Raw<O8> r; O8::Params pa(mm); if (!apply<O8, 7>(r, pa, ops)) { puts("stuck"); return; }
+		for (size_t i = 0; i <= 7; ++i) printf("%u ", unsigned(r.b->mData[i]));
+		printf("%llu %d\n", ull(r.b->pvGetCount()), r.b->IsFull() ? 1 : 0);
+	}
+	else
+	{
+		Raw<N1<3>> r; N1<3>::Params pa(mm); if (!apply<N1<3>, 3>(r, pa, ops)) { puts("stuck"); return; }
+		for (size_t i = 0; i <= 3; ++i) printf("%u ", unsigned(r.b->mData[i]));
+		printf("%llu %d\n", ull(r.b->pvGetCount()), r.b->IsFull() ? 1 : 0);
+	}
+}
+}
+
 // translator validation: the REAL leaf functions of the growth decision / probe sequence (same lines as ocaml/driver.ml `leaf`)
 static void leaf(std::istringstream& is)
 {
 	typedef internal::HashSetBucketItemTraits<HashSetItemTraits<uint64_t, kit::MM>> BIT;
 	std::string what, k; is >> what;
+	if (what == "bops") { bops::run(is); fflush(stdout); return; }
 	if (what == "cap")
 	{
 		ull mc, l; is >> k >> mc >> l; size_t bc = size_t(1) << l; ull cap = 0, sh = 0;
@@ -424,6 +483,23 @@ static void leaf(std::istringstream& is)
 	{	// HashSetBuckets::GetCount of a real bucket array created with that log size
 		ull l; is >> l; typedef internal::HashSetBuckets<internal::BucketOpen2N2<BIT, 3, false>> Bk; kit::MM mm(1);
 		Bk* b = Bk::Create(mm, size_t(l), nullptr); printf("%llu\n", ull(b->GetCount())); b->Destroy(mm, true);
+	}
+	else if (what == "rsv")
+	{	// the REAL Reserve(n) on a bucket-less HashSet with nl0 start buckets: which table size / capacity does it choose?
+		ull nl0, n; is >> k >> nl0 >> n;
+		auto go = [&] (auto trTag) {
+			typedef decltype(trTag) Tr; typedef SetAd<uint64_t, Tr> Ad; W() = kit::World();
+			{
+				typename Ad::Cont c{Tr(0, size_t(nl0)), kit::MM(1)};
+				try { c.Reserve(size_t(n)); printf("%llu %llu\n", ull(Ad::hs(c).mBuckets->GetLogCount()), ull(c.GetCapacity())); }
+				catch (const std::length_error&) { puts("EXN"); }
+				catch (const std::bad_alloc&) { puts("BADALLOC"); }
+			}
+		};
+		if (k == "L4") go(Traits<HashBucketLimP4<4, MemPoolParams<1, 0>>, true>());
+		else if (k == "L1") go(Traits<HashBucketLimP4<1, MemPoolParams<1, 0>>, true>());
+		else if (k == "O3") go(Traits<HashBucketOpen2N2<3>, true>());
+		else go(Traits<HashBucketOpen8, true>());
 	}
 	else puts("?leaf");
 	fflush(stdout);
